@@ -159,6 +159,32 @@ def lookupCache (s : PState) (id pos : Nat) : Option (Option Val × Nat) :=
 
 def remove (xs : List Nat) (x : Nat) : List Nat := xs.erase x
 
+/-- the memoization prologue of `ParsingExpression.parse`: `some` = cache hit -/
+def cacheHit (memo : Bool) (id : Nat) (s : PState) : Option (Res × PState) :=
+  match (if memo then lookupCache s id s.pos else .none) with
+  | some (some v, np) => some (.ok v, { s with pos := np })
+  | some (.none, np) => some (.nomatch, { s with pos := np })          -- `raise parser.nm`
+  | .none => .none
+
+/-- the epilogue of `ParsingExpression.parse` applied to the outcome of `_parse`:
+result post-processing, backtracking on NoMatch, and storing into `_result_cache` -/
+def cacheStore (memo : Bool) (id : Nat) (nd : Node) (cpos : Nat) : Res × PState → Res × PState
+  | (.ok v, s2) =>
+      let v := finish id nd v
+      let s2 := if memo then { s2 with cache := ((id, cpos), (some v, s2.pos)) :: s2.cache } else s2
+      (.ok v, s2)
+  | (.nomatch, s2) =>
+      let s2 := { s2 with pos := cpos }
+      let s2 := if memo then { s2 with cache := ((id, cpos), (.none, cpos)) :: s2.cache } else s2
+      (.nomatch, s2)
+  | r => r
+
+/-- `ParsingExpression.parse` around an arbitrary `_parse` body -/
+def wrap (memo : Bool) (id : Nat) (nd : Node) (body : PState → Res × PState) (s : PState) : Res × PState :=
+  match cacheHit memo id s with
+  | some r => r
+  | .none => cacheStore memo id nd s.pos (body s)
+
 mutual
 /-- `e.parse(parser)` for the node with index `id` -/
 def parse (g : Grammar) : Nat → Nat → PState → Res × PState
@@ -170,22 +196,10 @@ def parse (g : Grammar) : Nat → Nat → PState → Res × PState
       match nd.kind with
       | .str | .re | .eof => matchParse g n id nd s
       | _ =>
-        -- ParsingExpression.parse
-        let cpos := s.pos
-        match (if g.memo then lookupCache s id cpos else .none) with
-        | some (some v, np) => (.ok v, { s with pos := np })
-        | some (.none, np) => (.nomatch, { s with pos := np })          -- `raise parser.nm`
-        | .none =>
-          match parseBody g n id nd s with
-          | (.ok v, s2) =>
-              let v := finish id nd v
-              let s2 := if g.memo then { s2 with cache := ((id, cpos), (some v, s2.pos)) :: s2.cache } else s2
-              (.ok v, s2)
-          | (.nomatch, s2) =>
-              let s2 := { s2 with pos := cpos }
-              let s2 := if g.memo then { s2 with cache := ((id, cpos), (.none, cpos)) :: s2.cache } else s2
-              (.nomatch, s2)
-          | r => r
+        -- ParsingExpression.parse (= `wrap g.memo id nd (parseBody g n id nd) s`, see `parse_eq_wrap`)
+        match cacheHit g.memo id s with
+        | some r => r
+        | .none => cacheStore g.memo id nd s.pos (parseBody g n id nd s)
 
 /-- `Match.parse`: whitespace, comments (with the position-keyed cache), then the match -/
 def matchParse (g : Grammar) : Nat → Nat → Node → PState → Res × PState
